@@ -182,6 +182,7 @@ def explore(ctx):
     periodic_shifts(ctx, unwrap_terms)
     periodic_shifts_ppv(ctx)
     independent_rows(ctx)
+    handmade_structures(ctx)
     empty_catalogs(ctx)
     terms = ['(%s, %s, %s)' % (cz(n_), clist(l), clist(un)) for n_, l, un in unwrap_terms]
     # distinct terms only
@@ -299,6 +300,65 @@ def independent_rows(ctx):
         ctx.case_done(None, ('long-axis', it))
         if fails:
             ctx.oracle_failure(info, fails)
+
+
+def handmade_structures(ctx):
+    """Catalogs of plain lists of Structure objects that belong to no indexed dendrogram (a tree put together by hand from
+    another segmentation): every row against the statistics of the pooled pixel lists, computed here."""
+    from astrodendro.structure import Structure
+    rng = ctx.rng('c12-handmade')
+    for it in range(40 if ctx.quick else 400):
+        # random tree shape over 3..7 structures, each with 1..4 own pixels at distinct positions
+        nstruct = rng.randint(3, 7)
+        kids = {i: [] for i in range(nstruct)}
+        for i in range(1, nstruct):
+            kids[rng.randrange(i)].append(i)
+        cells = [(y, x) for y in range(8) for x in range(8)]
+        rng.shuffle(cells)
+        pix = {}
+        for i in range(nstruct):
+            npx = rng.randint(1, 4)
+            pix[i] = ([cells.pop() for _ in range(npx)], [rng.randint(1, 40) / 4.0 for _ in range(npx)])
+        objs = {}
+        for i in reversed(range(nstruct)):
+            ch = [objs[c] for c in kids[i]]
+            objs[i] = Structure(list(pix[i][0]), list(pix[i][1]), children=ch, idx=i) if ch else Structure(list(pix[i][0]), list(pix[i][1]), idx=i)
+
+        def members(i):
+            out = [i]
+            for c in kids[i]:
+                out += members(c)
+            return out
+        order = list(range(nstruct))
+        rng.shuffle(order)
+        info = {'stream': 'hand-made structures', 'children': kids, 'pixels': {i: [list(map(list, pix[i][0])), pix[i][1]] for i in pix}}
+        fails = []
+        try:
+            with warnings.catch_warnings():
+                warnings.simplefilter('ignore')
+                cat = pp_catalog([objs[i] for i in order], {'data_unit': u.Jy}, fields=['flux', 'x_cen', 'y_cen', 'major_sigma', 'minor_sigma', 'area_exact'], verbose=False)
+            if [int(x) for x in cat['_idx']] != list(range(nstruct)):
+                fails.append('_idx column %s' % list(cat['_idx']))
+            for r in cat:
+                i = int(r['_idx'])
+                yx = np.array([p_ for m_ in members(i) for p_ in pix[m_][0]], dtype=float)
+                w = np.array([v_ for m_ in members(i) for v_ in pix[m_][1]], dtype=float)
+                cen = (yx * w[:, None]).sum(0) / w.sum()
+                dd = yx - cen
+                cov = (dd[:, :, None] * dd[:, None, :] * w[:, None, None]).sum(0) / w.sum()
+                ev = np.linalg.eigvalsh(cov)
+                want = {'flux': w.sum(), 'y_cen': cen[0], 'x_cen': cen[1], 'area_exact': float(len(w)),
+                        'major_sigma': float(np.sqrt(max(ev[1], 0))), 'minor_sigma': float(np.sqrt(max(ev[0], 0)))}
+                for k_, v_ in want.items():
+                    tol = 1e-6 * max(1.0, float(np.sqrt(max(ev[1], 0)))) if 'sigma' in k_ else 1e-9 * max(1.0, abs(v_))
+                    if abs(float(r[k_]) - v_) > tol:
+                        fails.append('structure %d: %s = %r, from its pixel lists %r' % (i, k_, float(r[k_]), float(v_)))
+        except Exception as e:
+            fails.append('raised %r' % (e,))
+        ctx.count('handmade_structure_catalogs')
+        ctx.case_done(None, ('handmade', it))
+        if fails:
+            ctx.oracle_failure(info, fails[:4])
 
 
 def empty_catalogs(ctx):
